@@ -29,7 +29,8 @@ FINDINGS = {
     "C20-slice-out-of-range": "generateHashedDirectoryPath clamps only `end`: when (depth-1)*charsPerLevel exceeds the length of the "
                               "unpadded %x hash the slice hashHex[start:end] panics (e.g. depth 6 with 70000 folders per level: [20:16]; "
                               "or any depth >= 2 for a name whose hash renders short)",
-    "C20-separator-collision": "name parts may contain '/': (\"a/b\",\"c\",\"d\") and (\"a\",\"b/c\",\"d\") have the same canonical path and the same location",
+    "C20-separator-collision": "name parts may contain '/' in both name packages: (\"a/b\",\"c\",\"d\") and (\"a\",\"b/c\",\"d\") have the same canonical path and "
+                               "the same location (no longer reachable through the gateway, which now refuses names without exactly three non-empty parts)",
     "C20-routing-unvalidated": "the SDK client accepts any server ranges: an island of 1..allIslands that no range covers has no route "
                                "(GetServiceClient returns nil), an island covered twice silently goes to the later entry",
     "C20-island-cache-stale": "GetIslandID / GetFolderNumber memoise the first island on the name object and return it for ANY later island "
